@@ -24,6 +24,17 @@ func init() {
 		_, d := c17EvalHook(cs, no, nil)
 		return d
 	}
+	replayers["C17/hook-multi"] = func(c *Ctx, raw json.RawMessage) string {
+		var cs struct {
+			Pre, E, Pos int
+			Verb        string
+		}
+		json.Unmarshal(raw, &cs)
+		c17Build()
+		redact.RegisterRedactErrorFn(c17Hook)
+		defer redact.RegisterRedactErrorFn(nil)
+		return c17EvalMulti(cs.Pre, cs.E, cs.Pos, rune(cs.Verb[0]), nil)
+	}
 	replayers["C17/panicking-hook"] = func(c *Ctx, raw json.RawMessage) string {
 		var cs c17Case
 		json.Unmarshal(raw, &cs)
@@ -265,6 +276,63 @@ func c17EvalPanic(cs c17Case, seen func(string)) string {
 	return ""
 }
 
+// what may precede the error operand in the same call: (format prefix, operands)
+var c17Preceding = []struct {
+	F    string
+	Args []interface{}
+}{
+	{"", nil},
+	{"%s: ", []interface{}{nil}},
+	{"%d %v|", []interface{}{nil, nil}},
+	{"%z-", []interface{}{1}},
+	{"%s %d ", []interface{}{"str", 2}},
+	{"%[1]x %[1]q ", []interface{}{nil}},
+	{"%v ", []interface{}{panStrT{"boom"}}},
+	{"%!", nil},
+	{"%[9]d ", []interface{}{1}},
+	{"%v ", []interface{}{redact.Safe(nil)}},
+	{"%d ", []interface{}{redact.Unsafe(nil)}},
+	{"%x ", []interface{}{[]interface{}{nil, 1}}},
+	{"%5.1f ", []interface{}{2.5}},
+}
+
+func c17EvalMulti(pi, e, pos int, verb rune, seen func(string)) string {
+	pre := c17Preceding[pi]
+	if pre.F == "%[9]d " || pre.F == "%[1]x %[1]q " {
+		// explicit indexes: keep the error operand addressed explicitly too
+	}
+	run := func(op interface{}) string {
+		n := len(pre.Args) + 1
+		f := pre.F + fmt.Sprintf("%%[%d]%c", n, verb) + " end"
+		args := append(append([]interface{}{}, pre.Args...), op)
+		var out string
+		pv, pan := recoverTo(func() {
+			if verb == 'w' {
+				s, _ := redact.HelperForErrorf(f, args...)
+				out = string(s)
+			} else {
+				out = string(redact.Sprintf(f, args...))
+			}
+		})
+		if pan {
+			return fmt.Sprintf("PANIC ESCAPED: %v", pv)
+		}
+		return out
+	}
+	cs := c17Case{D: Directive{Verb: verb}, E: e, Pos: pos}
+	if !c17Dispatches(cs) || (verb == 'w' && pos != 0) {
+		return ""
+	}
+	got, want := run(c17Real[e][pos]), run(c17Prox[e][pos])
+	if seen != nil {
+		seen(got)
+	}
+	if got != want {
+		return fmt.Sprintf("format %q with operands %s then a %s error in position %q: with a hook installed = %q, want %q (the hook's rendering, as an equivalent SafeFormatter prints there)", pre.F+"%["+fmt.Sprint(len(pre.Args)+1)+"]"+string(verb)+" end", descArgs(pre.Args), c17Errs[e].Name, c17Positions[pos].Name, got, want)
+	}
+	return ""
+}
+
 func checkC17(c *Ctx) {
 	c17Build()
 	sp := quickDirectives()
@@ -312,6 +380,18 @@ func checkC17(c *Ctx) {
 		if i%601 == 0 {
 			cs := c17Case{D: d, E: i % nE, Pos: (i / 7) % nP}
 			w.Sample(map[string]interface{}{"case": c17Desc(cs), "with_hook": q(c17Run(cs, 0)), "without_hook": q(noHook[i*per+cs.E*nP+cs.Pos])})
+		}
+	})
+	// several operands in one call: what precedes the error operand must not matter
+	c.Section("C17/hook-multi", map[string]interface{}{"preceding": len(c17Preceding), "errors": nE, "positions": nP, "verbs": "vsdxqw"}, len(c17Preceding)*nE, func(i int, w *Worker) {
+		pi, e := i/nE, i%nE
+		for p := 0; p < nP; p++ {
+			for _, verb := range "vsdxqw" {
+				w.Eval()
+				if dt := c17EvalMulti(pi, e, p, verb, w.SeenS); dt != "" {
+					w.Fail("hook-multi", map[string]interface{}{"Pre": pi, "E": e, "Pos": p, "Verb": string(verb)}, dt)
+				}
+			}
 		}
 	})
 	// configuration 3: panicking hook
